@@ -192,7 +192,8 @@ def ArrV.applyUn (T : Tables) (op : UnOp) (a : ArrV) : Res ArrV := do
 
 /-- `a ** k` = `np.power(a, k)` with a Python integer `k` (weak scalar). -/
 def ArrV.powInt (T : Tables) (a : ArrV) (k : Int) : Res ArrV :=
-  if a.dtype.isInt && k < 0 then .error .valueErr else
+  -- numpy raises for integer ** negative integer as soon as there is an element
+  if a.dtype.isInt && k < 0 && !a.data.isEmpty then .error .valueErr else
   let dt := a.dtype
   let data := a.data.map (· ^ k)
   .ok { shape := a.shape, dtype := dt, data := data,
